@@ -32,6 +32,14 @@ Modes
   render / str / draw : one call; per render data object the finalize calls when the call
            returned (or while its exception is still alive) and after the exception is
            dropped + gc.collect().
+  drawio : one draw() / render() / str() on an output stream whose k-th write()/flush() call raises
+           KeyboardInterrupt / OSError, with the j-th sleep() raising KeyboardInterrupt, with the q-th
+           `_render_` raising, or (async) with a KeyboardInterrupt delivered at the k-th line executed
+           inside draw() / _animate_ (asyncfault.py).  Observed: EVERY entry into renderable-defined
+           code that is handed the render data (`_render_`, `_handle_interrupted_draw_`, `_clear_frame_`,
+           `_finalize_render_data_`) with `RenderData.finalized` as that entry saw it, in order,
+           up to and including garbage collection; how the call ended; the number of stream and sleep
+           calls.  With "enumerate_io": the unfaulted run, then EVERY k / j (and, async, every line).
 Everything reported is an integer / enum.
 """
 import implenv  # noqa: F401
@@ -53,6 +61,9 @@ FIN = {}  # serial -> calls of _finalize_render_data_
 FIN_FAULTS = set()  # invocation numbers (0-based, per render data object) at which the finalizer raises
 NESTED = []  # per close() made from inside _render_: [what it did, iterator._closed right after]
 UNRAISABLE = []  # finalizer exceptions the interpreter reported as unraisable (raised inside a __del__)
+# every entry into renderable-defined code that receives the render data: [which, RenderData.finalized at entry]
+# which: 0 _render_, 1 _handle_interrupted_draw_, 2 _clear_frame_, 3 _finalize_render_data_
+EVENTS = []
 
 
 def _unraisable(u):
@@ -72,6 +83,7 @@ def reset(case):
     FIN_FAULTS.update(int(k) for k in case.get("fin_faults", []))
     del UNRAISABLE[:]
     del NESTED[:]
+    del EVENTS[:]
 
 
 def quiet_finalize(data):
@@ -101,6 +113,7 @@ class VR10(VR):
         """kinds 7 / 8: call `iterator.close()` from inside this render (the generator of the
         iterator is executing); 7 lets whatever it raises propagate (tagged 7), 8 swallows it
         and renders normally."""
+        EVENTS.append([0, int(render_data.finalized)])
         call = self.calls
         kind = self._faults.get(call)
         if kind not in (7, 8) or self.it_ref is None:
@@ -129,6 +142,14 @@ class VR10(VR):
         exc._verif_kind = 7
         raise exc
 
+    def _handle_interrupted_draw_(self, render_data, render_args, output):
+        EVENTS.append([1, int(render_data.finalized)])
+        return super()._handle_interrupted_draw_(render_data, render_args, output)
+
+    def _clear_frame_(self, render_data, render_args, cursor_x, output):
+        EVENTS.append([2, int(render_data.finalized)])
+        return super()._clear_frame_(render_data, render_args, cursor_x, output)
+
     def _get_render_size_(self):
         if self._size_fault:
             exc = RuntimeError("injected (_get_render_size_)")
@@ -150,6 +171,7 @@ class VR10(VR):
 
     @classmethod
     def _finalize_render_data_(cls, render_data):
+        EVENTS.append([3, int(render_data.finalized)])
         try:
             serial = render_data[VR10].serial
         except UninitializedDataFieldError:
@@ -422,8 +444,141 @@ def run_session_enumerated(case):
     return out
 
 
+# ----------------------------------------------------------------- drawio: faults of the output stream / sleep / async
+
+
+class FaultyOut(io.StringIO):
+    """an output stream whose k-th write()/flush() call (0-based, counted together) raises"""
+
+    def __init__(self, k, kind):
+        super().__init__()
+        self.k, self.kind, self.calls = k, kind, 0
+
+    def isatty(self):
+        return False
+
+    def _tick(self):
+        i = self.calls
+        self.calls += 1
+        if i == self.k:
+            if self.kind == 0:
+                raise KeyboardInterrupt()
+            exc = OSError(5, "injected (output stream)")
+            exc._verif_io = True
+            raise exc
+
+    def write(self, text):
+        self._tick()
+        return super().write(text)
+
+    def flush(self):
+        self._tick()
+        return super().flush()
+
+
+ASYNC_FUNCS = ("draw", "_animate_")
+
+
+def _async_scope(frame):
+    import asyncfault
+    return frame.f_code.co_name in ASYNC_FUNCS and asyncfault.in_package(frame)
+
+
+def run_drawio(case):
+    """op: draw / render / str; io_fault: [k, kind] | None; sleep_fault: j | None; rfault: q | None;
+    async: k | None (None: no asynchronous fault; -1: counting run)."""
+    from asyncfault import AsyncFault
+    import contextlib
+    c = dict(case)
+    c.setdefault("size", [2, 1])
+    c.setdefault("dur", 1)
+    c["faults"] = {} if case.get("rfault") is None else {str(case["rfault"]): 1}
+    reset(c)
+    r = make10(c)
+    op = case["op"]
+    iof = case.get("io_fault")
+    out = FaultyOut(iof[0] if iof else None, iof[1] if iof else 0)
+    sleeps = [0]
+    sf = case.get("sleep_fault")
+
+    def fake_sleep(*_):
+        i = sleeps[0]
+        sleeps[0] += 1
+        if i == sf:
+            raise KeyboardInterrupt()
+
+    old_stdout, old_sleep = sys.stdout, _renderable_mod.sleep
+    sys.stdout = out
+    _renderable_mod.sleep = fake_sleep
+    ak = case.get("async")
+    probe = AsyncFault(k=None if ak == -1 else ak, scope=_async_scope) if ak is not None else None
+    outcome, other, n_ret = 0, None, None
+    try:
+        try:
+            with (probe or contextlib.nullcontext()):
+                if op == "draw":
+                    r.draw(animate=case.get("animate", True), loops=case.get("loops", 1), cache=case.get("cache", False),
+                           check_size=False)
+                elif op == "render":
+                    r.render()
+                elif op == "str":
+                    str(r)
+                else:
+                    raise AssertionError(op)
+            n_ret = len(EVENTS)
+        except BaseException as e:  # noqa: BLE001
+            n_ret = len(EVENTS)  # the exception (and the frames its traceback references) is still alive here
+            if isinstance(e, KeyboardInterrupt):
+                outcome = 1
+            elif isinstance(e, OSError) and getattr(e, "_verif_io", False):
+                outcome = 2
+            elif isinstance(e, StopIteration) and hasattr(e, "_verif_kind"):
+                outcome = 4
+            elif getattr(e, "_verif_kind", None) == 1:
+                outcome = 3
+            else:
+                outcome, other = 9, type(e).__name__
+    finally:
+        sys.stdout = old_stdout
+        _renderable_mod.sleep = old_sleep
+    gc.collect()
+    res = {"outcome": outcome, "events": [list(e) for e in EVENTS], "n_ret": n_ret, "io": out.calls,
+           "sleeps": sleeps[0], "fins": [FIN[s] for s in r.serials] + list(ORPHAN_FIN.values()),
+           "lines": probe.count if probe else 0, "fired": int(probe.fired) if probe else 0}
+    if outcome == 9:
+        res["other"] = other
+    return res
+
+
+def run_drawio_enumerated(case):
+    plain = {k: v for k, v in case.items() if k not in ("enumerate_io", "enumerate_async")}
+    plain.update(io_fault=None, sleep_fault=None)
+    plain["async"] = None
+    first = run_drawio(plain)
+    out = [[plain, first]]
+    if case.get("enumerate_io"):
+        for k in range(first["io"]):
+            for kind in (0, 1):
+                v = dict(plain, io_fault=[k, kind])
+                out.append([v, run_drawio(v)])
+        for j in range(first["sleeps"]):
+            v = dict(plain, sleep_fault=j)
+            out.append([v, run_drawio(v)])
+    if case.get("enumerate_async"):
+        count = run_drawio(dict(plain, **{"async": -1}))["lines"]
+        step = case["enumerate_async"]  # 1: every line; s > 1: every s-th line (offset by the case)
+        for k in range(1 + case.get("async_offset", 0) % step, count + 1, step):
+            v = dict(plain, **{"async": k})
+            out.append([v, run_drawio(v)])
+    return out
+
+
 def run_case(case):
     mode = case.get("mode", "iter")
+    if mode == "drawio":
+        if case.get("enumerate_io") or case.get("enumerate_async"):
+            return run_drawio_enumerated(case)
+        return [[case, run_drawio(case)]]
     if mode == "session":
         return run_session_enumerated(case) if case.get("enumerate") else [[case, run_session(case)]]
     it = mode == "iter"
